@@ -42,9 +42,18 @@ func c15Value(a []int) ServicePackable {
 	return &DescriptionRes{DeviceHardware: c15DeviceInfo(nameLen, a[6]), SupportedServices: c02Families(nfam)}
 }
 
-// c15DeviceInfo: like c02DeviceInfo; wide = 1 puts a rune beyond Latin-1 in the middle of the name.
+// c15DeviceInfo: like c02DeviceInfo; wide = 1 puts a rune beyond Latin-1 in the middle of the name;
+// wide = 2, 3, 4: hardware address of 0 (nil), 8 and 5 bytes instead of the 6 the block has room for.
 func c15DeviceInfo(nameLen, wide int) DeviceInformationBlock {
 	d := c02DeviceInfo(nameLen)
+	switch wide {
+	case 2:
+		d.HardwareAddr = nil // the zero value of the structure
+	case 3:
+		d.HardwareAddr = nondetBytes(8) // EUI-64
+	case 4:
+		d.HardwareAddr = nondetBytes(5)
+	}
 	if wide == 1 && nameLen > 0 {
 		rs := []rune(d.FriendlyName)
 		rs[nameLen/2] = rune(0x100 + uint32(nondetU16()))
@@ -67,6 +76,27 @@ func HarnessC15Pack(a []int) {
 		buf[size+i] = 0xA5
 	}
 	Pack(buf[:size], v)
+	if len(a) > 6 && a[6] >= 2 && a[5] <= 29 {
+		// a hardware address of another length than 6 must not move the neighbouring name field
+		var back Service
+		_, err := Unpack(buf[:size], &back)
+		verifAssert("C15.hw.frame_decodes", err == nil)
+		var want, got DeviceInformationBlock
+		switch x := v.(type) {
+		case *SearchRes:
+			want, got = x.DescriptionB.DeviceHardware, back.(*SearchRes).DescriptionB.DeviceHardware
+		case *DescriptionRes:
+			want, got = x.DeviceHardware, back.(*DescriptionRes).DeviceHardware
+		}
+		verifAssert("C15.hw.name_in_place", got.FriendlyName == want.FriendlyName)
+		for i := 0; i < 6; i++ {
+			b := byte(0)
+			if i < len(want.HardwareAddr) {
+				b = want.HardwareAddr[i]
+			}
+			verifAssert("C15.hw.six_octets", got.HardwareAddr[i] == b)
+		}
+	}
 	for i := 0; i < size; i++ {
 		verifAssert("C15.stale.byte_determined", verifIndep(buf[i]))
 	}
